@@ -17,7 +17,7 @@ META = {
                   "where the cleaner re-constructs them), symbolic number/order of children and symbolic allow_custom: refused iff customization is "
                   "disallowed and some child is custom, otherwise the returned flag is exactly the disjunction; hash names (12 names x pairs) and "
                   "reference types (12 types x 7 configurations) over tables; the constructor engine's own flag (C02 engine obligations); "
-                  "end-to-end: every single and every ordered pair of 31 injection sites (top level, embedded objects, registered/unregistered "
+                  "end-to-end: every single and every ordered pair of 34 injection sites (top level, embedded objects, registered/unregistered "
                   "extensions in both orders, hash dictionaries, references, observed-data and bundle members) on 7 base objects (incl. false-y custom values and 2.0 objects referring to 2.1-only types): strict parse "
                   "refuses, permissive parse accepts and has_custom is true exactly when a strict parse of the serialization is refused; unknown "
                   "types through parse (dict and text), MemoryStore and FileSystemStore with both switch settings.",
@@ -41,7 +41,7 @@ def obligations(tier):
            bounds="two registered extensions each clean/custom and each given as dict or ready-made instance, unregistered extension, extension-definition; both orders; symbolic allow_custom"),
         CH("hash_names", H, "prop_hashes", t, mode="E1s", functions=F[4:5], bounds="12 algorithm names (spec, library-known non-spec, unknown, case variants), singles and pairs"),
         CH("flag_iff_strict_reparse_refuses", H, "flag_iff_strict_refuses", t * 2, mode="E1s", functions=F,
-           bounds="none, each single and each ordered pair (same base object) of 31 injection sites on 7 base objects"),
+           bounds="none, each single and each ordered pair (same base object) of 34 injection sites on 7 base objects"),
         CH("dropped_custom_values_do_not_flag", H, "dropped_custom_values", t, mode="E1s", functions=F[:1],
            bounds="custom property given as null / [] at 9 sites (top level, embedded, extension, bundle and observed-data members), alone or next to each injection"),
         CH("registered_toplevel_extensions_not_custom", H, "toplevel_extension_routes", t, mode="E1s", functions=F[:1] + ["stix2.versioning.new_version", "stix2.base._STIXBase.__deepcopy__"],
